@@ -99,6 +99,7 @@ type scnStep struct {
 	KGEmpty  bool       `json:"kg_empty"` // open: KG is a zero-length, non-nil slice (what []byte("") or hex.DecodeString("") give)
 	Reuse    bool       `json:"reuse"`    // cmd: send the very command value of the last step with the same command name again
 	ViaNewSession bool  `json:"via_newsession"` // open: through the version-agnostic entry point NewSession(ctx, *SessionOpts)
+	SharedPrefs bool    `json:"shared_prefs"` // open: the cipher-suite preference list is ONE process-wide slice every caller passes (callers only ever read it)
 	ReuseOpts bool      `json:"reuse_opts"` // open: the caller keeps ONE *V2SessionOpts for all its opens and only assigns the fields it uses (KG only when it has one)
 	KeepCtx  bool       `json:"keep_ctx"` // the step's context stays alive after the step (until the scenario ends)
 }
@@ -780,6 +781,13 @@ func (zeroBackOff) Reset()                     {}
 
 var dialed []*bmc.V2SessionlessTransport
 
+// sharedPrefs is a preference list as a program would keep it: one slice, handed to every NewV2Session of every goroutine.
+// Its first entry is a suite none of the simulated BMCs offers, so discovery has something to skip.
+var sharedPrefs = []ipmi.CipherSuite{
+	{AuthenticationAlgorithm: ipmi.AuthenticationAlgorithmHMACMD5, IntegrityAlgorithm: ipmi.IntegrityAlgorithmHMACSHA256128, ConfidentialityAlgorithm: ipmi.ConfidentialityAlgorithmAESCBC128},
+	ipmi.CipherSuite17, ipmi.CipherSuite3,
+}
+
 type scnState struct {
 	b      *sim.BMC
 	t      *simTransport
@@ -944,6 +952,9 @@ func runStepM(st *scnState, step *scnStep, withMetrics bool) (res stepResult) {
 			}
 			if step.KGEmpty {
 				opts.KG = []byte{}
+			}
+			if step.SharedPrefs {
+				opts.CipherSuites = sharedPrefs
 			}
 			if step.ReuseOpts {
 				if st.opts != nil {
